@@ -53,6 +53,10 @@ def build(spec, stream, start, example_rows=0):
     op = spec.get('op')
     frame = spec.get('frame', False)          # aggregate a two-column frame instead of one column
     col = (lambda o: o[['x', 'y']]) if frame else (lambda o: o.x)
+    if spec.get('elementwise') and k in ('window', 'expanding'):
+        # an element-wise operation on the window object before aggregating: (w.x * 2).sum()
+        base_col = col
+        col = lambda o: base_col(o) * 2        # noqa
     if k == 'red':
         if op in ('sum', 'count'):
             return getattr(col(sdf), op)(start=start), False
@@ -294,6 +298,8 @@ def generate(prop, rng, seed, index, tier):
         spec['series_grouper'] = True
     if kind in ('red', 'rolling', 'window', 'expanding', 'ewm') and spec.get('op') != 'size' and rng.random() < 0.35:
         spec['frame'] = True
+    if spec['kind'] in ('window', 'expanding') and spec.get('op') not in ('size',) and rng.random() < 0.25:
+        spec['elementwise'] = True
     nb = rng.randrange(2, 9 if big else 7)
     t = 0
     batches = []
